@@ -59,6 +59,11 @@ var c17Patterns = []c17Pattern{
 	{`rm -rf`, []string{"rm -rf"}},
 	{`\bsudo\b`, []string{"sudo"}},
 	{`pass(word|phrase)`, []string{"password", "passphrase"}},
+	// patterns written with upper-case letters, character classes and an inline flag
+	{`DROP DATABASE`, []string{"drop database", "DROP DATABASE"}},
+	{`BEGIN (RSA )?PRIVATE KEY`, []string{"begin private key", "BEGIN RSA PRIVATE KEY"}},
+	{`Api[-_ ]?Key`, []string{"apikey", "API_KEY", "api key"}},
+	{`(?i)Secret Token`, []string{"secret token", "SECRET TOKEN"}},
 }
 
 var c17Benign = []string{"please", "explain", "weather", "rome", "tomorrow", "recipe", "bread", "sum", "two", "numbers",
